@@ -205,6 +205,8 @@ class DATADumpFile(DATADump):
 	def append_msg(self, msg):
 		# Generate raw bytes and write
 		msg_raw = self.dump_msg(msg)
+		# A previous read may have moved the descriptor
+		self.f.seek(0, 2)
 		self.f.write(msg_raw)
 
 	# Writes a list of messages at the end of the capture
